@@ -138,8 +138,20 @@ def run(tier):
         rep.cov["evaluations"] += n * len(svc.STRATS)
         rep.cov["distinct_nontrivial"] += sum(c for k, c in dist.items() if k.endswith("/feasible"))
         rep.notes["service"] = {"scenarios_per_strategy": n, "dist": dict(dist)}
+    import c07
+    import c10
+
+    def extra2(rep, tier_, sd):
+        extra(rep, tier_, sd)
+        # the fixed-load forecast the look-ahead strategies plan with (round-3 seed C09-s7)
+        c07.weekly_profile(rep, tier_, sd)
+    with c10.prepared(tier, n_fast=60 if tier == "quick" else 200) as strat_unit:
+        return _standard(tier, [strat_unit], extra2)
+
+
+def _standard(tier, units, extra):
     return corr.standard_run(
-        "C09", tier, [], 0, 0,
+        "C09", tier, units, 0, 0,
         trusted=["the look-ahead strategies (balanced_market, peak_load_window, flex_window, distributed) are NOT modelled; the "
                  "guarantee is evaluated on generated scenarios with the harness's own feasibility oracle (vehicle alone, full "
                  "station power over its standing steps, implementation's Battery class)",
@@ -151,6 +163,12 @@ def run(tier):
 
 
 def replay(payload):
+    if payload["input"].get("unit") == "stratstep":
+        import c10
+        return c10.replay(payload)
+    if payload["input"].get("unit") == "weekly":
+        import c07
+        return c07.replay(payload)
     case = payload["input"]["case"]
     v, _ = check_case(case)
     return v
